@@ -61,22 +61,27 @@ type Case struct {
 	Kind  string          `json:"kind"`
 	Seed  uint64          `json:"seed"`
 	Value json.RawMessage `json:"value"`
+	Other json.RawMessage `json:"other,omitempty"` // TestText: a second value of the same type (the receiver's previous content)
 
-	live reflect.Value
+	live, live2 reflect.Value
 }
 
 type caseJSON struct {
 	Kind  string          `json:"kind"`
 	Seed  uint64          `json:"seed"`
 	Value json.RawMessage `json:"value"`
+	Other json.RawMessage `json:"other,omitempty"`
 }
 
 func (c Case) MarshalJSON() ([]byte, error) {
-	v := c.Value
+	v, o := c.Value, c.Other
 	if v == nil && c.live.IsValid() {
 		v = gen.DumpJSON(c.live)
 	}
-	return json.Marshal(caseJSON{c.Kind, c.Seed, v})
+	if o == nil && c.live2.IsValid() {
+		o = gen.DumpJSON(c.live2)
+	}
+	return json.Marshal(caseJSON{c.Kind, c.Seed, v, o})
 }
 
 func (c *Case) UnmarshalJSON(b []byte) error {
@@ -84,8 +89,22 @@ func (c *Case) UnmarshalJSON(b []byte) error {
 	if err := json.Unmarshal(b, &j); err != nil {
 		return err
 	}
-	*c = Case{Kind: j.Kind, Seed: j.Seed, Value: j.Value}
+	*c = Case{Kind: j.Kind, Seed: j.Seed, Value: j.Value, Other: j.Other}
 	return nil
+}
+
+// other returns the second value of the case, if it has one.
+func (c Case) other(t reflect.Type) (reflect.Value, bool, error) {
+	if c.live2.IsValid() {
+		v := reflect.New(t).Elem()
+		v.Set(c.live2)
+		return v, true, nil
+	}
+	if c.Other == nil {
+		return reflect.Value{}, false, nil
+	}
+	v, err := gen.LoadJSON(t, c.Other)
+	return v, err == nil, err
 }
 
 func (c Case) value(t reflect.Type) (reflect.Value, error) {
